@@ -401,5 +401,11 @@ def run(chk, repo):
     from rules.shared import no_substring_on_headers
     chk.clauses.append('C18.l (R-KIND) header entries are never compared by a substring test on the joined header string: merging keeps every entry (union of header entries)')
     no_substring_on_headers(chk, repo, 'C18.l', ['aa.VariantPeptidePool', 'aa.PeptidePoolSplitter', 'aa.PeptidePoolSummarizer', 'cli.merge_fasta', 'cli.split_fasta', 'cli.encode_fasta'], floor=1)
+    from rules.shared import no_stale_loop_locals
+    chk.clauses.append('C18.m (R-FRESH) parse_variant_peptide_id resets the optional fields (gene id, ORF id) for EVERY entry of a header: an entry never inherits the ORF id of the entry before it')
+    no_stale_loop_locals(chk, repo, 'C18.m', 'aa.VariantPeptideIdentifier:parse_variant_peptide_id',
+                         lambda l: isinstance(l, ast.For) and 'split' in unparse(l.iter) and any(isinstance(x, ast.Name) and x.id == 'orf_id' for x in ast.walk(l)),
+                         'the entry loop of parse_variant_peptide_id',
+                         reviewed={'variant_id': 'assigned by an if/elif chain over the four identifier classes that IdentifierType can be (it is set to one of them above): the chain is exhaustive by construction'})
 
 
